@@ -38,11 +38,11 @@ theorem exPb_wf : WellFormed exPb := by
   rcases hrow with rfl | rfl <;> rfl
 
 /-- 6 size variables (the keys), 7 border variables, 5·6+7 hidden variables of the division encoding,
-6 colour variables; two givens. -/
+6 colour variables; 70 + 7 constraints of the division encoding, 7 border definitions, 2 givens, 7 colour
+definitions. -/
 example : WellFormed exPb ∧ ∃ P, program exPb = .ok P ∧ P.decls.length = 6 + 7 + 37 + 6 ∧
-    P.keys = [0, 1, 2, 3, 4, 5] ∧
-    Expr.node .eq [.ivar 0, .litI 3] ∈ P.cs ∧ Expr.node .eq [.ivar 4, .litI 1] ∈ P.cs :=
-  ⟨exPb_wf, _, rfl, by decide, by decide, by decide, by decide⟩
+    P.cs.length = 77 + 7 + 2 + 7 ∧ P.keys = [0, 1, 2, 3, 4, 5] :=
+  ⟨exPb_wf, _, rfl, by decide, by decide, by decide⟩
 
 /-- The plain variant on a 3×1 board (height > width). -/
 example : ∃ P, program { height := 3, width := 1, problem := [[0], [2], [0]] } = .ok P ∧ P.keys = [0, 1, 2] :=
